@@ -231,14 +231,19 @@ func (g *equivGen) commandTemplate(maxRefs int) []*Node {
 	}
 }
 
-func renderCommand(amount string, body []*Node) string {
-	return strings.Join(Command{Amount: []string{amount}, Body: body}.Tokens(), " ")
+func renderCommand(amount string, body []*Node, replace bool) string {
+	c := Command{Amount: []string{amount}, Body: body}
+	if replace {
+		c.Replace = true
+		c.With = []WithItem{{Kind: 0, S: "<"}, {Kind: 1, S: "value"}, {Kind: 0, S: ">"}}
+	}
+	return strings.Join(c.Tokens(), " ")
 }
 
 func TestC13(t *testing.T) {
 	seedNote(t)
 	StartWatchdog("C13", 60*time.Second)
-	st := NewStats("C13", "renderings", "capture-free body B (or, in, loops, not in, optional inline recursion) x context (prefix, suffix, inside maybe / at least 0 / at most 2 / counted loops with 1..3 mandatory iterations / alternation) x 1..3 references x 1..3 commands sharing definitions x text; renderings: written out, {B} = s + calls, set s to pattern B (also through a second pattern); multi-command source vs its commands taken alone; non-trivial = B has a jump-bearing construct and is referenced >= 2 times or from >= 2 commands; distinct by (reference source, text)")
+	st := NewStats("C13", "renderings", "capture-free body B (or, in, loops, not in, optional inline recursion) x context (prefix, suffix, inside maybe / at least 0 / at most 2 / counted loops with 1..3 mandatory iterations / alternation) x 1..3 references x 1..3 find or replace commands sharing definitions x text; renderings: written out, {B} = s + calls, set s to pattern B (also through a second pattern); multi-command source vs its commands taken alone; non-trivial = B has a jump-bearing construct and is referenced >= 2 times or from >= 2 commands; distinct by (reference source, text)")
 	defer st.Write()
 	rapid.Check(t, func(t *rapid.T) {
 		f := Features{Subs: true}
@@ -297,12 +302,20 @@ func TestC13(t *testing.T) {
 			return &Node{K: KSub, S: name, Kids: []*Node{{K: KLoop, Min: 0, Max: 1, Body: &Node{K: KLit, S: "q"}}}}
 		}
 		var inlineCmds, subCmds, setCmds []string
+		// some commands are replace commands (the same ones in every rendering)
+		asReplace := make([]bool, len(templates))
+		for ci := range asReplace {
+			asReplace[ci] = rapid.IntRange(0, 2).Draw(t, "asreplace") == 0
+			if asReplace[ci] {
+				st.Count("replace_commands")
+			}
+		}
 		for ci, tpl := range templates {
 			ib := inlineBody(tpl)
 			if collide != "" {
 				ib = append([]*Node{prefixSub(fmt.Sprintf("zz%d", ci))}, ib...)
 			}
-			inlineCmds = append(inlineCmds, renderCommand("all", ib))
+			inlineCmds = append(inlineCmds, renderCommand("all", ib, asReplace[ci]))
 			// {B} = s at the first reference of this command, calls afterwards
 			seen := false
 			sname := fmt.Sprintf("s%d", ci)
@@ -319,7 +332,7 @@ func TestC13(t *testing.T) {
 			if collide != "" {
 				sb = append([]*Node{prefixSub(fmt.Sprintf("zz%d", ci))}, sb...)
 			}
-			subCmds = append(subCmds, renderCommand("all", sb))
+			subCmds = append(subCmds, renderCommand("all", sb, asReplace[ci]))
 			var gb []*Node
 			if collide != "" {
 				gb = append(gb, prefixSub(collide))
@@ -327,7 +340,7 @@ func TestC13(t *testing.T) {
 			for _, n := range tpl {
 				gb = append(gb, substitute(n, func() *Node { return &Node{K: KGlobal, S: "gp"} }))
 			}
-			setCmds = append(setCmds, renderCommand("all", gb))
+			setCmds = append(setCmds, renderCommand("all", gb, asReplace[ci]))
 		}
 		setDef := strings.Join(Global{Name: "gp", Body: B.Kids}.Tokens(), " ")
 		setDef2 := strings.Join(Global{Name: "gq", Body: B.Kids}.Tokens(), " ") + " set gp to pattern gq"
@@ -370,8 +383,8 @@ func TestC13(t *testing.T) {
 					}))
 					sb = append(sb, substitute(n, func() *Node { return &Node{K: KGlobal, S: "gl"} }))
 				}
-				lateRef = append(lateRef, renderCommand("all", rb))
-				lateSet = append(lateSet, renderCommand("all", sb))
+				lateRef = append(lateRef, renderCommand("all", rb, false))
+				lateSet = append(lateSet, renderCommand("all", sb, false))
 			}
 			c2 := EquivCase{Sources: []string{strings.Join(lateRef, " "), setDef + " " + strings.Join(lateSet, " ")},
 				Labels: []string{"written out", "pattern defined between commands"}, Text: text}
